@@ -283,6 +283,11 @@ func builtinEscape(input string) string {
 }
 
 func builtinUnescape(input string) string {
+	return string(utf16.Decode(builtinUnescapeUnits(input)))
+}
+
+// builtinUnescapeUnits returns the UTF-16 code units of unescape(input).
+func builtinUnescapeUnits(input string) []uint16 {
 	output := make([]uint16, 0, len(input))
 	length := len(input)
 	for index := 0; index < length; {
@@ -310,7 +315,7 @@ func builtinUnescape(input string) string {
 		output = append(output, utf16.Encode([]rune{chr})...)
 		index += width
 	}
-	return string(utf16.Decode(output))
+	return output
 }
 
 func builtinGlobalEscape(call FunctionCall) Value {
@@ -318,5 +323,5 @@ func builtinGlobalEscape(call FunctionCall) Value {
 }
 
 func builtinGlobalUnescape(call FunctionCall) Value {
-	return stringValue(builtinUnescape(call.Argument(0).string()))
+	return utf16Value(builtinUnescapeUnits(call.Argument(0).string()))
 }
